@@ -6,7 +6,7 @@ import DarkluaModel.Shared.Visitor
   local identifiers (globals and mere uses are never recorded), `is_identifier_used`,
   `generate_identifier_with_prefix` (suffixes from `Permutator::new("012345689")` — there is no
   `7` in the real alphabet).
-* `canReturnMultiple` — `Evaluator::can_return_multiple_values` (`src/process/evaluator/mod.rs`).
+* `canReturnMultipleSyn` — `Evaluator::can_return_multiple_values` (`src/process/evaluator/mod.rs`).
 * `Census` / `count` — the feature census used by property C07: the number of occurrences of the
   Luau-only constructs selected by a `Census` over EVERY syntactic position of the shared AST.
 * `WF` — the trees darklua's own AST types can express (the shared AST folds `Prefix`,
@@ -70,13 +70,13 @@ end Tracker
 
 /-! ### Evaluator::can_return_multiple_values -/
 
-def canReturnMultiple : Expr → Bool
+def canReturnMultipleSyn : Expr → Bool
   | .call .. | .un .. | .vararg => true
   | .bin op _ _ => !(op == .and || op == .or)
   | _ => false
 
 /-- `expression.in_parentheses()` when it may return several values -/
-def parenIfMultiple (e : Expr) : Expr := if canReturnMultiple e then .paren e else e
+def parenIfMultiple (e : Expr) : Expr := if canReturnMultipleSyn e then .paren e else e
 
 /-! ### the feature census (property C07) -/
 
